@@ -25,6 +25,8 @@ pub struct Observed {
     pub chal: fmx::Chal,
     pub nonces: fmx::Nonces,
     pub recs: Vec<Rec>,
+    /// id of the caller's transcript
+    pub tid: u64,
     /// prover RNG instances in construction order: (id, transcript history as event strings, rekey label, witness, ext)
     pub instances: Vec<(u64, Vec<String>, Vec<u8>, Vec<u8>, Vec<u8>)>,
     /// draws per instance, in order
@@ -68,7 +70,7 @@ pub fn observe(inst: &Inst, kind: &RngKind) -> Option<Observed> {
                 .collect()
         })
         .collect();
-    Some(Observed { proof, parts, chal, nonces, recs, instances, draws })
+    Some(Observed { proof, parts, chal, nonces, recs, tid, instances, draws })
 }
 
 fn pos_wire(name: &str) -> String {
@@ -188,10 +190,44 @@ pub fn c14(opts: &Opts, out: &mut Out) {
         let key = format!("{} rng={:?}", inst.describe(), kind);
         let Some(o) = observe(&inst, kind) else { continue };
         let kappa = o.parts.l.len();
-        out.oracle("C14:rng-rebuilt-after-every-update", o.instances.len() == kappa + 3, &key, &format!("{} instances for {} rounds", o.instances.len(), kappa));
-        out.oracle("C14:every-instance-rekeyed-with-witness", o.instances.iter().all(|i| i.2 == b"witness" && !i.3.is_empty() && i.4.len() == 32), &key, "an RNG instance was built without the witness or without external randomness");
+        // every scalar the prover draws comes from an RNG that was keyed with (non-empty) witness bytes and finalised
+        // with at least 32 bytes of external randomness, and that was forked from the transcript when nothing more
+        // was absorbed afterwards: the forked history is the whole transcript at the moment of the draw. (How many
+        // instances are built, and under which labels, is the implementation's business.)
+        // (only absorbed data counts: a challenge squeezed between the fork and the draw adds no information)
+        let ev_str = |e: &Ev| -> Option<String> { crate::scen_transcript::ev_str(e).filter(|s| s.starts_with("a.")) };
+        let ctx_len = inst.transcript().shadow.iter().filter_map(ev_str).count();
+        let mut parent: Vec<String> = vec![];
+        let (mut keyed, mut whole, mut ndraws) = (true, true, 0usize);
+        let mut why = String::new();
+        for r in &o.recs {
+            if r.id == o.tid {
+                if let Some(e) = ev_str(&r.ev) {
+                    parent.push(e);
+                }
+                continue;
+            }
+            if let Ev::Draw { out: d } = &r.ev {
+                if d.len() != 64 {
+                    continue;
+                }
+                ndraws += 1;
+                let wit_ok = r.hist.iter().any(|e| matches!(e, Ev::Rekey { witness, .. } if !witness.is_empty()));
+                let ext_ok = r.hist.iter().any(|e| matches!(e, Ev::Finalize { ext } if ext.len() >= 32));
+                if !(wit_ok && ext_ok) {
+                    keyed = false;
+                }
+                let h: Vec<String> = r.hist.iter().filter_map(ev_str).collect();
+                let ok = h.len() == ctx_len + parent.len() && h[ctx_len..] == parent[..];
+                if !ok && whole {
+                    whole = false;
+                    why = format!("draw #{}: forked history has {} absorbed messages after the context, the transcript {} at that moment", ndraws, h.len().saturating_sub(ctx_len), parent.len());
+                }
+            }
+        }
+        out.oracle("C14:every-draw-keyed-and-hedged", keyed && ndraws > 0, &key, "a scalar was drawn from an RNG built without witness bytes or without 32 bytes of external randomness");
+        out.oracle("C14:draw-sees-whole-transcript", whole, &key, &why);
         let wit0 = o.instances.first().map(|i| i.3.clone()).unwrap_or_default();
-        out.oracle("C14:same-witness-bytes-everywhere", o.instances.iter().all(|i| i.3 == wit0), &key, "witness bytes differ between instances");
         out.req(
             format!("witnessbytes v={} r={}", nlist(&inst.values), inst.blindings.iter().map(|b| b.iter().map(hs).collect::<Vec<_>>().join(",")).collect::<Vec<_>>().join("/")),
             format!("bytes={}", hex(&wit0)),
@@ -219,22 +255,6 @@ pub fn c14(opts: &Opts, out: &mut Out) {
             ),
             format!("hists={}", o.instances.iter().map(|i| i.1[ctx_events.len().min(i.1.len())..].join(",")).collect::<Vec<_>>().join("|")),
         );
-        // every prover draw comes from the most recently built instance
-        let mut order_ok = true;
-        let mut last_inst = 0usize;
-        for r in &o.recs {
-            if let Ev::Finalize { .. } = &r.ev {
-                last_inst = o.instances.iter().position(|i| i.0 == r.id).unwrap_or(0);
-            }
-            if let Ev::Draw { .. } = &r.ev {
-                if let Some(i) = o.instances.iter().position(|i| i.0 == r.id) {
-                    if i != last_inst {
-                        order_ok = false;
-                    }
-                }
-            }
-        }
-        out.oracle("C14:draws-from-latest-instance", order_ok, &key, "a nonce was drawn from a stale RNG instance");
         classes.insert((*n, *m, *t, 0usize));
     }
     // (2) fault injection: pairs of runs differing in exactly one datum share no RNG output
@@ -279,6 +299,30 @@ pub fn c14(opts: &Opts, out: &mut Out) {
             out.oracle("C14:harness-same-commitment", c0.2 == c1.2, &key, "degenerate generators did not give equal commitments (value)");
             out.oracle("C14:value-change-no-shared-nonce", disjoint(&c0.0, &c1.0), &format!("{} differ=value(same commitment)", key), "two witnesses for one commitment share an RNG-derived nonce under a faulty external RNG");
             classes.insert((n, 1, t, 10 + fi));
+        }
+    }
+    // the bytes keyed into the RNG determine the witness: changing any single component (a value, any blinding
+    // component of any opening) changes the key of every instance
+    {
+        let keys_of = |inst: &Inst| -> Option<Vec<Vec<u8>>> { observe(inst, &RngKind::Zero).map(|o| o.instances.iter().map(|i| i.3.clone()).collect()) };
+        for (n, m, t) in [(4usize, 2usize, 3usize), (8, 1, 6), (2, 4, 1)] {
+            let inst = fmrun::random_inst(n, m, m, t, 4, false, &mut rng);
+            let Some(k0) = keys_of(&inst) else { continue };
+            for j in 0..m {
+                for c in 0..=t {
+                    let mut i2 = inst.clone();
+                    if c == t {
+                        i2.values[j] ^= 1;
+                        i2.promises[j] = None;
+                    } else {
+                        i2.blindings[j][c] += Scalar::ONE;
+                    }
+                    let Some(k1) = keys_of(&i2) else { continue };
+                    let all_differ = !k0.is_empty() && k0.len() == k1.len() && k0.iter().zip(k1.iter()).all(|(a, b)| a != b);
+                    out.oracle("C14:key-determines-witness", all_differ, &format!("n={} m={} t={} opening={} component={}", n, m, t, j, if c == t { "value".to_string() } else { format!("r[{}]", c) }), "two witnesses differing in one component key an RNG instance with the same bytes");
+                }
+            }
+            classes.insert((n, m, t, 20usize));
         }
     }
     // seeded statements: r and s still come from the hedged RNG
